@@ -3,7 +3,7 @@
    SPEC = direct indexing / per-semantic input lists / the documented normalisations. *)
 From Coq Require Import List Bool ZArith NArith Lia.
 From PC Require Import Base.Atoms Base.Xml Base.Outcome Base.Py Model.LoadPrim Model.Namespace Model.LoadDoc
-                       Proofs.LoadPrim Proofs.LoadDoc.
+                       Proofs.LoadPrim Proofs.LoadPrimViews Proofs.LoadDoc.
 Import ListNotations.
 Local Open Scope nat_scope.
 
@@ -45,6 +45,74 @@ Theorem C05_index_views_concat : forall nind o (a b : list Z) ra rb,
   reshape nind (a ++ b) = Some (ra ++ rb) /\ col o (ra ++ rb) = col o ra ++ col o rb.
 Proof. intros. split; [now apply reshape_app | apply col_app]. Qed.
 Print Assumptions C05_index_views_concat.
+
+(* What the constructors expose, for EVERY input table [ins] (any order, shared / gapped offsets,
+   several sets) and flat index: nindices = max offset + 1; with no rows every view is absent;
+   otherwise positions / normals come from the FIRST VERTEX / NORMAL input, there is one texcoord
+   view per TEXCOORD input in order (tangent / binormal views for triangle sets only), and each view
+   is (that input's source, the direct reading  flat[j * nindices + offset]  of the stream). *)
+Theorem C05_primitive_views : forall k ins flat vc pv,
+  construct k ins flat vc = Ok pv ->
+  let nind := S (max_off ins) in
+  let nonempty := negb (Nat.eqb (length flat / nind) 0) in
+  let first sem := if nonempty then option_map (direct nind flat) (hd_error (bucket sem ins)) else None in
+  let every sem := if nonempty then map (direct nind flat) (bucket sem ins) else [] in
+  pv_nind pv = nind /\
+  length flat = pv_count pv * corners_per k * nind /\
+  pv_table pv = map (fun s => bucket s ins) known_sems /\
+  pv_vertex pv = first a_VERTEX /\
+  pv_normal pv = first a_NORMAL /\
+  pv_tex pv = every a_TEXCOORD /\
+  pv_textan pv = (if is_tri k then every a_TEXTANGENT else []) /\
+  pv_texbin pv = (if is_tri k then every a_TEXBINORMAL else []) /\
+  pv_poly pv = option_map (fun v => (v, poly_starts v, poly_ends v)) vc /\
+  (forall v, vc = Some v -> sumZ v = Z.of_nat (length flat / nind)).
+Proof. exact construct_views. Qed.
+Print Assumptions C05_primitive_views.
+
+(* <triangles>, <lines>, <polylist>: the loader hands the constructor the resolved inputs of
+   C05_vertices_expansion and the first <p> as it is written *)
+Theorem C05_single_p_loaders : forall sc k inputs vcount p rest pv,
+  k = KTriangles \/ k = KLines \/ k = KPolylist ->
+  load_primitive sc k inputs vcount (p :: rest) = Ok pv ->
+  exists l flat vc,
+    get_inputs sc inputs = Ok l /\ parse_index p = Some flat /\
+    (k <> KPolylist -> vc = None) /\
+    (k = KPolylist -> exists t v, vcount = Some t /\ parse_index t = Some v /\ vc = Some v) /\
+    construct k l flat vc = Ok pv /\
+    (forall o, spec_index (S (max_off l)) o (flat :: nil) (spec_corners k (S (max_off l)) (flat :: nil))
+               = spec_view (S (max_off l)) o flat).
+Proof.
+  intros sc k inputs vcount p rest pv Hk H.
+  destruct (load_primitive_single _ _ _ _ _ _ _ Hk H) as (l & flat & vc & A & B & C & D & E).
+  exists l, flat, vc. repeat split; try assumption. intro o. now apply spec_index_single.
+Qed.
+Print Assumptions C05_single_p_loaders.
+
+(* <tristrips>, <trifans>: the flat index handed to the constructor is the concatenation of the
+   expanded <p>; what an input at offset o reads of it is, <p> by <p>, the corner rows of the strip /
+   fan triangles read directly from that <p> (the SPEC's spec_corners / spec_index) *)
+Theorem C05_strips_fans_views : forall k nind o ps flat,
+  k = KStrips \/ k = KFans -> o < nind -> load_flat k nind ps = Ok flat ->
+  exists pl, parse_all ps = Some pl /\ Forall (fun p => length p mod nind = 0) pl /\
+             spec_view nind o flat = spec_index nind o pl (spec_corners k nind pl).
+Proof.
+  intros k nind o ps flat Hk Ho H. destruct (load_flat_strips _ _ _ _ Hk H) as (pl & PA & F & ->).
+  exists pl. repeat split; try assumption. rewrite spec_index_strips by exact Hk. now apply strips_view.
+Qed.
+Print Assumptions C05_strips_fans_views.
+
+(* <polygons>: the <p> elements are concatenated; vcounts are their row counts *)
+Theorem C05_polygons_views : forall nind o ps flat,
+  o < nind -> load_flat KPolygons nind ps = Ok flat ->
+  exists pl, parse_all ps = Some pl /\ flat = concat pl /\
+             (Forall (fun p => length p mod nind = 0) pl ->
+              spec_view nind o flat = spec_index nind o pl (spec_corners KPolygons nind pl)).
+Proof.
+  intros nind o ps flat Ho H. destruct (load_flat_polygons _ _ _ H) as (pl & PA & ->).
+  exists pl. repeat split; try assumption. intro F. symmetry. now apply spec_index_polygons.
+Qed.
+Print Assumptions C05_polygons_views.
 
 (* polylist: ends and starts are the prefix sums of the vertex counts *)
 Theorem C05_polylist_ranges : forall vc i, i < length vc ->
